@@ -139,7 +139,13 @@ func vpH_c04_positions() {
 		g := vpS("gname")
 		grp.Key = vpS("gkey")
 		grp.Group = &g
-		grp.Steps = Steps{&CommandStep{Command: vpS("gcmd"), Label: vpS("glabel")}}
+		grp.Steps = Steps{
+			&CommandStep{Command: vpS("gcmd"), Label: vpS("glabel"), Key: vpS("gckey"),
+				Env:    map[string]string{vpS("gek"): vpS("gev")},
+				Matrix: &Matrix{Setup: MatrixSetup{vpS("gdim"): {vpS("gmv")}}},
+				Cache:  &Cache{Name: vpS("gcache"), Paths: []string{vpS("gpath")}}},
+			&GroupStep{Key: vpS("ggkey"), Steps: Steps{&WaitStep{Contents: map[string]any{vpS("gwk"): vpS("gwv")}}, &CommandStep{Command: vpS("ggcmd"), Env: map[string]string{"E": vpS("ggev")}}}},
+		}
 		grp.RemainingFields = map[string]any{vpS("gk"): vpS("gv")}
 	case 6: // wait / input / trigger
 		wait.Contents = map[string]any{vpS("wk"): vpS("wv")}
@@ -208,6 +214,16 @@ func vpH_c04_positions() {
 		vpAssert(grp.Key == vpT("gkey") && grp.Group != nil && *grp.Group == vpT("gname"), "group key and name are the single-pass expansion")
 		gc := grp.Steps[0].(*CommandStep)
 		vpAssert(gc.Command == vpT("gcmd") && gc.Label == vpT("glabel"), "steps inside groups are expanded once")
+		gev, gok := gc.Env[vpT("gek")]
+		vpAssert(gc.Key == vpT("gckey") && len(gc.Env) == 1 && gok && gev == vpT("gev"), "key and env (names and values) of a command step inside a group are the single-pass expansion")
+		gvals, gmok := gc.Matrix.Setup[vpT("gdim")]
+		vpAssert(len(gc.Matrix.Setup) == 1 && gmok && len(gvals) == 1 && gvals[0] == vpT("gmv"), "the matrix of a command step inside a group is the single-pass expansion")
+		vpAssert(gc.Cache.Name == vpT("gcache") && len(gc.Cache.Paths) == 1 && gc.Cache.Paths[0] == vpT("gpath"), "the cache settings of a command step inside a group are the single-pass expansion")
+		gg := grp.Steps[1].(*GroupStep)
+		ggw := gg.Steps[0].(*WaitStep)
+		ggc := gg.Steps[1].(*CommandStep)
+		vpAssert(gg.Key == vpT("ggkey") && len(ggw.Contents) == 1 && vpAnyIs(ggw.Contents[vpT("gwk")], vpT("gwv")), "groups inside groups are expanded once")
+		vpAssert(ggc.Command == vpT("ggcmd") && ggc.Env["E"] == vpT("ggev"), "command steps two groups deep are expanded once (env included)")
 		vpAssert(len(grp.RemainingFields) == 1 && vpAnyIs(grp.RemainingFields[vpT("gk")], vpT("gv")), "group extra fields are the single-pass expansion")
 	case 6:
 		vpAssert(len(wait.Contents) == 1 && vpAnyIs(wait.Contents[vpT("wk")], vpT("wv")), "wait step contents are the single-pass expansion")
